@@ -249,3 +249,32 @@ func H_C10_natural() {
 	vxrt.Assert(vxrt.Eq(readFile(path), small+big), "C10:sorted-in-natural-order")
 	vxrt.Assert((vxrt.FSStamp() != stamp) == bigFirst, "C10:written-only-if-unsorted")
 }
+
+// H_C10_ties: two distinct ids that the natural comparator cannot order (they
+// differ only by a leading zero); with sort requested Clean must still be
+// idempotent and must not rewrite a file it already considers sorted.
+func H_C10_ties() {
+	vxrt.EnvFixed("NO_COLOR", "1")
+	dir := vxrt.Dir()
+	path := dir + "/f.snap"
+	d := vxrt.Text("digit", 1)
+	vxrt.Assume(vxrt.And(d[0] >= '1', d[0] <= '9'))
+	a := frame("TestPad/0"+d+" - 1", "x")
+	b := frame("TestPad/"+d+" - 1", "y")
+	if vxrt.Bool("zero-padded-first") {
+		writeFile(path, a+b)
+	} else {
+		writeFile(path, b+a)
+	}
+	reg := map[string]map[string]int{path: {"TestPad/0" + d: 1, "TestPad/" + d: 1}}
+	_, err := examineSnaps(reg, []string{path}, "", 1, false, true)
+	vxrt.Assert(err == nil, "C10:examine-succeeds")
+	after := readFile(path)
+	ga, _, ea := getPrevSnapshot("[TestPad/0"+d+" - 1]", path)
+	gb, _, eb := getPrevSnapshot("[TestPad/"+d+" - 1]", path)
+	vxrt.Assert(ea == nil && eb == nil && ga == "x" && gb == "y", "C10:survivor-value-unchanged")
+	stamp := vxrt.FSStamp()
+	_, err = examineSnaps(reg, []string{path}, "", 1, false, true)
+	vxrt.Assert(err == nil && vxrt.FSStamp() == stamp, "C10:second-run-changes-nothing")
+	vxrt.Assert(vxrt.Eq(readFile(path), after), "C10:second-run-same-bytes")
+}
